@@ -32,6 +32,16 @@ def collect(h):
         raise h.Missing(f"{rel2}: applyRecs: load(&rec.originRec) followed by rec.build() not found")
     guarded = re.search(r"if\s+[^{]*\{[^{}]*(//[^\n]*\n[^{}]*)*load\(&rec\.originRec\)", ab, re.S) is not None
     items.append(("rec_apply_reloads_origin", "bool", "false" if guarded else "true", rel2 + " applyRecs"))
+    # F-C03-2: an update that does not assign sys.IsActive takes the activity of the STORED record
+    # (validEvent refreshes the changes row), not that of the object handed to ICUD.Update
+    vb = h.func_body(rel, r"^func \(recs \*appRecordsType\) validEvent\(", "validEvent")
+    if "ev.cud.updates" not in vb:
+        raise h.Missing(f"{rel}: validEvent no longer walks ev.cud.updates")
+    refresh = re.search(r"if\s+!rec\.changes\.isActiveModified[^{]*\{\s*rec\.changes\.setActive\(old\.IsActive\(\)\)", vb) is not None
+    items.append(("rec_update_activity_from_store", "bool", "true" if refresh else "false", rel + " validEvent"))
+    ub = h.func_body("pkg/istructsmem/event-types.go", r"^func \(upd \*updateRecType\) build\(", "updateRecType.build")
+    if not re.search(r"if\s+upd\.changes\.IsActive\(\)\s*!=\s*upd\.originRec\.IsActive\(\)\s*\{\s*upd\.result\.setActive\(upd\.changes\.IsActive\(\)\)", ub):
+        raise h.Missing("pkg/istructsmem/event-types.go: updateRecType.build: activity rule (value comparison) not recognised")
     body = h.func_body(rel, r"^func \(er \*implIEventReapplier\) ApplyRecords\(", "ApplyRecords")
     if not re.search(r"apply2\(er\.plogEvent,\s*nil,\s*true\)", body):
         raise h.Missing(f"{rel}: ApplyRecords does not call apply2(..., true)")
